@@ -23,7 +23,26 @@ import sys
 import tempfile
 
 
-def rv(v):
+def declared_enums(tp):
+    """the Enum classes a field annotation names (List[E], Optional[E], Tuple[E, E], E)"""
+    import enum
+    import typing
+
+    if isinstance(tp, type) and issubclass(tp, enum.Enum):
+        return [tp]
+    out = []
+    for a in typing.get_args(tp):
+        out += declared_enums(a)
+    return out
+
+
+def rv(v, declared=()):
+    import enum
+
+    if isinstance(v, enum.Enum):
+        # name AND value AND whether the member belongs to the class THIS dataclass declares
+        tag = "" if type(v) in declared else "!foreign"
+        return f"enum:{type(v).__module__}.{type(v).__qualname__}.{v.name}={v.value}{tag}"
     if isinstance(v, bool):
         return f"bool:{v}"
     if isinstance(v, int):
@@ -33,9 +52,9 @@ def rv(v):
     if v is None:
         return "none"
     if isinstance(v, tuple):
-        return "tuple(" + ",".join(rv(x) for x in v) + ")"
+        return "tuple(" + ",".join(rv(x, declared) for x in v) + ")"
     if isinstance(v, list):
-        return "list(" + ",".join(rv(x) for x in v) + ")"
+        return "list(" + ",".join(rv(x, declared) for x in v) + ")"
     return "other:" + type(v).__name__
 
 
@@ -56,7 +75,7 @@ def render_ns(ns, dests):
                 out.append([key, "dc:" + type(v).__name__])
                 walk(key, v)
             else:
-                out.append([key, rv(v)])
+                out.append([key, rv(v, tuple(declared_enums(f.type)))])
 
     for dest in dests:
         if not hasattr(ns, dest):
